@@ -3,6 +3,7 @@
   document with pairwise distinct top-level keys (every top-level edit is a `dset` / `derase`).
 -/
 import Proofs.C05Inv
+import Proofs.C02PosFrame
 
 set_option linter.unusedSimpArgs false
 set_option linter.unusedVariables false
@@ -356,6 +357,111 @@ theorem applyOps_top (spec now : Val) (wasInsert : Bool) (whole : Fields) :
                     · exact replaceWhole_top whole d r h
                     · cases h
 
+/-! ### the positional branch: every step edits one top-level field (`Touch`) -/
+
+theorem Touch.top {p : String} {fs fs' : Fields} (h : C02Lemmas.Touch p fs fs')
+    (hn : (dkeys fs).Nodup) : TopOK (.doc fs') := by
+  rcases h with rfl | ⟨x, rfl⟩ | rfl
+  · exact TopOK.mk' hn
+  · exact TopOK.dset _ _ hn
+  · exact TopOK.derase _ hn
+
+theorem foldlM_inv_st {σ : Type} (docOf : σ → Val) (step : σ → (String × Val) → R σ)
+    (hstep : ∀ s kv s', TopOK (docOf s) → step s kv = .ok s' → TopOK (docOf s')) :
+    ∀ (body : Fields) (s s' : σ), TopOK (docOf s) → body.foldlM step s = .ok s' → TopOK (docOf s') :=
+  foldlM_inv (fun s => TopOK (docOf s)) step hstep
+
+theorem posFields_top (u : Updater) (now spec v d : Val) (sub : SubRef) (r : Val × SubRef)
+    (hd : TopOK d) (h : posFields u now spec v d sub = .ok r) : TopOK r.1 := by
+  cases v with
+  | doc body =>
+    simp only [posFields] at h
+    split at h
+    · obtain ⟨st, hst, h2⟩ := C02Lemmas.bind_ok' h
+      cases h2
+      refine foldlM_inv_st (fun (s : PosState) => s.d) _ ?_ body _ st hd hst
+      intro s kv s' hs h0
+      obtain ⟨fs0, hd0, hn0⟩ := hs
+      obtain ⟨fs1, h1, ht⟩ := C02Lemmas.posUpdaterKey_touch u now spec s s' kv.1 kv.2 fs0 hd0 h0
+      simp only [h1]
+      exact Touch.top ht hn0
+    · obtain ⟨d1, h1, h2⟩ := C02Lemmas.bind_ok' h
+      cases h2
+      exact updateFields_top u now _ d d1 hd h1
+  | _ => simp [posFields] at h
+
+theorem eachFieldS_top (f : Val → SubRef → String → Val → R (Val × SubRef))
+    (hf : ∀ fs s field value r, f (.doc fs) s field value = .ok r →
+      ∃ fs', r.1 = .doc fs' ∧ C02Lemmas.Touch (headOf field) fs fs')
+    (v d : Val) (sub : SubRef) (r : Val × SubRef) (hd : TopOK d)
+    (h : eachFieldS v d sub f = .ok r) : TopOK r.1 := by
+  cases v with
+  | doc body =>
+    simp only [eachFieldS] at h
+    refine foldlM_inv_st (fun (s : Val × SubRef) => s.1) _ ?_ body _ r hd h
+    intro s kv s' hs h0
+    obtain ⟨fs0, hd0, hn0⟩ := hs
+    obtain ⟨d0, s0⟩ := s
+    simp only at hd0
+    subst hd0
+    obtain ⟨fs1, h1, ht⟩ := hf fs0 s0 kv.1 kv.2 s' h0
+    simp only [h1]
+    exact Touch.top ht hn0
+  | _ => simp [eachFieldS] at h
+
+theorem applyOpsPos_top (spec now : Val) (wasInsert : Bool) (whole : Fields) :
+    ∀ (ops : Fields) (first : Bool) (sub : SubRef) (d r : Val), TopOK d →
+      applyOpsPos spec now wasInsert whole ops first sub d = .ok r → TopOK r
+  | [], first, sub, d, r, hd, h => by
+    simp only [applyOpsPos] at h
+    cases h; exact hd
+  | (k, v) :: rest, first, sub, d, r, hd, h => by
+    have key : ∀ (X : R (Val × SubRef)), (∀ x, X = .ok x → TopOK x.1) →
+        (do let x ← X; applyOpsPos spec now wasInsert whole rest false x.2 x.1) = Except.ok r →
+        TopOK r := by
+      intro X hX hb
+      obtain ⟨x, h1, h2⟩ := C02Lemmas.bind_ok' hb
+      exact applyOpsPos_top spec now wasInsert whole rest false x.2 x.1 r (hX x h1) h2
+    simp only [applyOpsPos] at h
+    split at h
+    · rename_i u hu
+      exact key _ (fun x hx => posFields_top u now spec v d sub x hd hx) h
+    · split at h
+      · obtain ⟨d1, h1, h2⟩ := C02Lemmas.bind_ok' h
+        exact applyOpsPos_top spec now wasInsert whole rest false _ d1 r
+          (renameFields_top _ _ _ hd h1) h2
+      split at h
+      · split at h
+        · exact applyOpsPos_top spec now wasInsert whole rest first sub d r hd h
+        · exact key _ (fun x hx => posFields_top .set now spec v d sub x hd hx) h
+      split at h
+      · exact key _ (fun x hx => posFields_top .currentDate now spec v d sub x hd hx) h
+      split at h
+      · refine key _ (fun x hx => eachFieldS_top _ ?_ v d sub x hd hx) h
+        intro fs0 s0 f0 v0 r0 h0
+        obtain ⟨d1, h1, h2⟩ := C02Lemmas.bind_ok' h0
+        cases h2
+        exact C02Lemmas.addToSetFieldPos_touch spec fs0 f0 v0 d1 h1
+      split at h
+      · refine key _ (fun x hx => eachFieldS_top _ ?_ v d sub x hd hx) h
+        intro fs0 s0 f0 v0 r0 h0
+        exact C02Lemmas.pullFieldPos_touch spec s0 fs0 f0 v0 r0 h0
+      split at h
+      · refine key _ (fun x hx => eachFieldS_top _ ?_ v d sub x hd hx) h
+        intro fs0 s0 f0 v0 r0 h0
+        obtain ⟨d1, h1, h2⟩ := C02Lemmas.bind_ok' h0
+        cases h2
+        exact C02Lemmas.pullAllFieldPos_touch spec fs0 f0 v0 d1 h1
+      split at h
+      · refine key _ (fun x hx => eachFieldS_top _ ?_ v d sub x hd hx) h
+        intro fs0 s0 f0 v0 r0 h0
+        obtain ⟨d1, h1, h2⟩ := C02Lemmas.bind_ok' h0
+        cases h2
+        exact C02Lemmas.pushFieldPos_touch spec fs0 f0 v0 d1 h1
+      split at h
+      · exact replaceWhole_top whole d r h
+      · cases h
+
 theorem applyUpdate_top (spec document now : Val) (wasInsert : Bool) (existing r : Val)
     (hd : TopOK existing) (h : applyUpdate spec document now wasInsert existing = .ok r) : TopOK r := by
   unfold applyUpdate at h
@@ -365,7 +471,9 @@ theorem applyUpdate_top (spec document now : Val) (wasInsert : Bool) (existing r
       · cases h; exact TopOK.mk' (by simp [dkeys])
       · cases h; exact TopOK.mk' (by simp [dkeys])
     · simp [unmodelled] at h
-  · exact applyOps_top spec now wasInsert _ _ _ _ _ hd h
+  · split at h
+    · exact applyOpsPos_top spec now wasInsert _ _ _ _ _ _ hd h
+    · exact applyOps_top spec now wasInsert _ _ _ _ _ hd h
   · cases h
 
 end MongoModel.Proofs.C05Lemmas
